@@ -120,14 +120,33 @@ def case(ctx, rng, fmt, w, h, d, payload, cls="random"):
             elif nb > 2000:
                 payload = rng.randbytes(nb * (8 if fmt == "bc1" else 16))
             else:
-                payload = b"".join(adversarial_block(rng, fmt) for _ in range(nb))
-    hdr = tex.header(attr, fmt, w, h, d)
-    data = hdr + payload + b"\xEE" * rng.choice([0, 0, 1, 9])
+                blocks = [adversarial_block(rng, fmt) for _ in range(nb)]
+                if fmt != "bc1" and rng.random() < 0.4:
+                    # neighbouring 16-byte blocks that agree in one half only (same alpha, other colour; same red, other green)
+                    for i in range(1, nb):
+                        k = rng.random()
+                        if k < 0.3:
+                            blocks[i] = blocks[i - 1][:8] + blocks[i][8:]
+                        elif k < 0.45:
+                            blocks[i] = blocks[i][:8] + blocks[i - 1][8:]
+                        elif k < 0.5:
+                            blocks[i] = blocks[i - 1]
+                    cls = cls if cls != "random" else "half-shared-neighbours"
+                payload = b"".join(blocks)
+    # a mip chain behind the first surface: the header announces it, the decoded image is still the first surface
+    mips = 1
+    tail = b"\xEE" * rng.choice([0, 0, 1, 9])
+    if rng.random() < 0.3:
+        full = max(w, h).bit_length()
+        mips = rng.choice([2, full, full, min(13, full + 1)])
+        tail = rng.randbytes(min(len(payload) // 2 + 8, 4096))
+    hdr = tex.header(attr, fmt, w, h, d, mips=mips)
+    data = hdr + payload + tail
     f = ctx.write("t.tex", data)
     out = ctx.path("t.rgba")
     if os.path.exists(out):
         os.unlink(out)
-    ctx.case(digest(data), fmt != "bgra" or w * H >= 2, ["fmt:" + fmt, "depth:%d" % d, "pixels:%s" % ("<=2^16" if w * H <= 65536 else "<=2^20" if w * H <= (1 << 20) else ">2^20"), "w%%4:%d" % (w % 4), "h%%4:%d" % (h % 4), cls, "3d:%d" % (1 if attr & tex.ATTR_3D else 0)],
+    ctx.case(digest(data), fmt != "bgra" or w * H >= 2, ["fmt:" + fmt, "depth:%d" % d, "mips:%s" % ("1" if mips == 1 else ">1"), "square:%d" % (w == h), "pixels:%s" % ("<=2^16" if w * H <= 65536 else "<=2^20" if w * H <= (1 << 20) else ">2^20"), "w%%4:%d" % (w % 4), "h%%4:%d" % (h % 4), cls, "3d:%d" % (1 if attr & tex.ATTR_3D else 0)],
              sample=dict(format=fmt, width=w, height=h, depth=d, attribute=attr, payload_bytes=len(payload)))
     rec = ctx.call("tex.parse", f, out, input_bytes=len(data))
     ctx.check_mon(rec, len(data), files=[f])
